@@ -139,12 +139,41 @@ func doShape(repo, out string) {
 				// the public entry points that are glue around the modelled core: which functions they call, in order of
 				// first appearance (a wrapper that stops going through the validating entry point changes this list)
 				if (p == "." || p == "microqr" || p == "rmqr") && (name == "Encode" || name == "QRCode.Encode" || name == "New") {
+					// only calls of functions / methods DECLARED IN THIS PACKAGE, by their bare name: local variable names and
+					// the rendering code (third-party calls) may change freely
+					declared := map[string]bool{}
+					for _, f2 := range files {
+						for _, d2 := range f2.Decls {
+							if fd, ok := d2.(*ast.FuncDecl); ok {
+								declared[fd.Name.Name] = true
+							}
+						}
+					}
+					imported := map[string]bool{}
+					for _, f2 := range files {
+						for _, im := range f2.Imports {
+							path := strings.Trim(im.Path.Value, "\"")
+							name := path[strings.LastIndex(path, "/")+1:]
+							if im.Name != nil {
+								name = im.Name.Name
+							}
+							imported[name] = true
+						}
+					}
 					seen := map[string]bool{}
 					var calls []string
 					ast.Inspect(fn.Body, func(n ast.Node) bool {
 						if c, ok := n.(*ast.CallExpr); ok {
-							nm := strings.Join(strings.Fields(render(fset, c.Fun)), "")
-							if _, isLit := c.Fun.(*ast.FuncLit); !isLit && !seen[nm] {
+							nm := ""
+							switch f := c.Fun.(type) {
+							case *ast.Ident:
+								nm = f.Name
+							case *ast.SelectorExpr:
+								if x, ok := f.X.(*ast.Ident); !ok || !imported[x.Name] {
+									nm = f.Sel.Name
+								}
+							}
+							if nm != "" && declared[nm] && !seen[nm] {
 								seen[nm] = true
 								calls = append(calls, nm)
 							}
